@@ -374,6 +374,26 @@ fn gen_len(rng: &mut Rng) -> usize {
     }) as usize
 }
 
+/// an identifier that differs from `k` but would collide with it under a careless packing or hash
+fn confusable(k: Key, rng: &mut Rng) -> Key {
+    let (s, d, p, id) = k;
+    let p2: u8 = *rng.pick(&[1u8, 6, 17, 16, 0]);
+    match rng.below(12) {
+        0 => (d, s, p, id),                                             // endpoints swapped
+        1 => (s, d, p2, id),                                            // protocol only
+        2 => (s, d, p, id ^ 0x0100),                                    // high byte of the identification
+        3 => (s, d, p, id ^ 0x0001),                                    // low bit of the identification
+        4 => (s, d, p, id.swap_bytes()),                                // byte order
+        5 => (s, d, p2, id ^ (((p ^ p2) as u16) << 8)),                 // (p << 8) ^ id collides
+        6 => (s, d, p2, id ^ ((p ^ p2) as u16)),                        // p ^ id collides
+        7 => (s, d, p2, id.wrapping_add(p as u16).wrapping_sub(p2 as u16)), // p + id collides
+        8 => (s, d, p2, (((p as u16) << 8) | id) & !((p2 as u16) << 8) | (id & ((p2 as u16) << 8))), // (p << 8) | id collides when bits allow
+        9 => (s ^ 0x0100, d, p, id),                                    // one address byte
+        10 => (s, d ^ 0x01000000, p, id),
+        _ => (s, d, p2, id.wrapping_sub(((p2 as u16).wrapping_sub(p as u16)) << 8)), // (p << 8) + id collides
+    }
+}
+
 #[derive(Clone, Copy, PartialEq)]
 enum Stream {
     Plain,
@@ -390,8 +410,12 @@ fn run_case(stream: Stream, rng: &mut Rng, out: &mut Out) -> Exec {
     let mut made = 0;
     let mut used: Vec<Key> = vec![];
     let small_space = rng.chance(1, 2); // few identifiers: reuse is likely
+    // "confusable" identifiers: the second and later datagrams of a round get an identifier derived
+    // from the first one by a transform under which a sloppy key packing / hash would collide
+    // (fields swapped, protocol folded into the identification by shift / xor / sum, one byte changed)
+    let confuse = rng.chance(2, 5);
     while made < total {
-        let in_round = rng.range(1, (total - made) as u64) as usize;
+        let in_round = if confuse && total - made >= 2 { rng.range(2, (total - made) as u64) as usize } else { rng.range(1, (total - made) as u64) as usize };
         let mut arrivals: Vec<(usize, String)> = vec![]; // (datagram ordinal in round, op line)
         let mut round_keys: Vec<Key> = vec![];
         for d in 0..in_round {
@@ -399,7 +423,13 @@ fn run_case(stream: Stream, rng: &mut Rng, out: &mut Out) -> Exec {
             let mut key: Key;
             let mut tries = 0;
             loop {
-                key = if !used.is_empty() && rng.chance(1, 2) {
+                key = if confuse && d >= 1 && tries < 10 {
+                    confusable(round_keys[0], rng)
+                } else if confuse && d == 0 && tries < 10 {
+                    let rid = rng.below(65536) as u16;
+                    (0x0a000001 + rng.below(2) as u32, 0x0a000002 + 256 * rng.below(2) as u32, *rng.pick(&[1u8, 6, 17]),
+                     *rng.pick(&[0u16, 1, 6, 17, 0x0600, 0x1100, 0x1000, 0x0102, 0x0611, 0x1706, rid]))
+                } else if !used.is_empty() && rng.chance(1, 2) {
                     *rng.pick(&used)
                 } else if small_space {
                     (0x0a000001 + rng.below(2) as u32, 0x0a000002 + 256 * rng.below(2) as u32, *rng.pick(&[6u8, 17]), rng.below(2) as u16)
